@@ -41,6 +41,30 @@ rc, so, se = run([BIN, "run", prop, "--tier", tier, "--seed", str(seed)])
 native_rc = rc
 sys.stdout.write("".join(l + "\n" for l in so.splitlines() if not l.startswith("OK property=")))
 
+# ---------------------------------------------------------------- C07: the same monitors with a warped clock in the workers
+# The defragmenter is the one stateful object whose calls are separated in time; its results must depend on the
+# records only. The workers are re-run with every clock read jumping one hour ahead (LD_PRELOAD probes/timewarp/warp.c).
+if prop == "C07":
+    warp = os.path.join(BUILD, "layers", "libwarp.so")
+    os.makedirs(os.path.dirname(warp), exist_ok=True)
+    rc, so, se = run(["cc", "-shared", "-fPIC", "-O1", "-o", warp, os.path.join(ROOT, "probes/timewarp/warp.c"), "-ldl"])
+    if rc != 0:
+        inconclusive.append("time-warp shim does not build: " + se[-300:])
+    else:
+        ed = os.path.join(BUILD, "layers/warp-evidence")
+        os.makedirs(ed, exist_ok=True)
+        env = dict(ENV, VERIF_EVIDENCE_DIR=ed, VERIF_RUN_DIR=os.path.join(BUILD, "run-warp"), VERIF_WORKER_PRELOAD=warp)
+        rc, so, se = run([BIN, "run", prop, "--tier", "quick", "--seed", str(seed + 2)], env=env)
+        lines = so.splitlines()
+        layers["warped_clock"] = {"exit": rc, "summary": lines[0] if lines else "", "shim": "probes/timewarp/warp.c (+1 h per clock read, workers only)"}
+        for l in lines:
+            if l.startswith("VIOLATION") or l.startswith("  violation signature") or l.startswith("KNOWN-FINDING"):
+                print("[warped clock] " + l if not l.startswith("VIOLATION") else l)
+        if rc == 1:
+            violations.append(("warped-clock:see-lines-above", None))
+        elif rc != 0:
+            inconclusive.append("warped-clock run inconclusive: " + (lines[-1] if lines else se[-200:]))
+
 if tier == "thorough":
     # ------------------------------------------------------------ stock release profile (no debug assertions / overflow checks)
     if prop == "C01":
